@@ -463,15 +463,36 @@ Proof.
   split; [vm_compute; reflexivity|]. split; vm_compute; reflexivity.
 Qed.
 
-(* A subject that spells the namespace as the EMPTY STRING is not a designation the fixer recognises
-   (filterMapCandidatesByNamespace keys the candidates by the literal text, and no resource has the effective
-   namespace ""): it keeps `namespace: ""` while the account moves to prod.  The law "subjects that designate an
-   account of the build move with it" fails for this spelling although `namespace: ""` and an absent namespace
-   mean the same to Kubernetes. *)
-Lemma subjects_empty_namespace_refuted :
+(* A subject that spells the namespace as the EMPTY STRING.  Before the repair
+   R-nameref-empty-namespace-subject filterMapCandidatesByNamespace keyed the candidates by the literal text, no
+   resource has the effective namespace "", and the subject kept `namespace: ""` while the account moved to prod
+   (former lemma subjects_empty_namespace_refuted, finding C09/subjects/empty-namespace-subject).  After the repair
+   the empty spelling is treated like an absent namespace and the subject follows the account. *)
+Lemma subjects_empty_namespace_follow :
   exists m2 r' a',
     sj_run [sj_sa "sa1"; sj_rb [Map [("kind", sj_sc "ServiceAccount"); ("name", sj_sc "sa1"); ("namespace", sj_sc "")]]] = Ok m2 /\
     nth_error m2 0 = Some a' /\ nth_error m2 1 = Some r' /\
     get_namespace (r_node a') = "prod" /\
-    sj_subjects r' = Some (Seq [Map [("kind", sj_sc "ServiceAccount"); ("name", sj_sc "sa1"); ("namespace", sj_sc "")]]).
+    option_map (fun s => match s with Seq es => map (fun e => (subj_str "name" e, subj_str "namespace" e)) es | _ => [] end)
+               (sj_subjects r') = Some [("sa1", "prod")].
 Proof. do 3 eexists. split; [vm_compute; reflexivity|]. repeat split; vm_compute; reflexivity. Qed.
+
+(* the designation hypothesis of subjects_follow_account holds for the empty spelling *)
+Example subjects_empty_namespace_designates :
+  let m0 := [sj_sa "sa1"; sj_rb [Map [("kind", sj_sc "ServiceAccount"); ("name", sj_sc "sa1"); ("namespace", sj_sc "")]]] in
+  exists m1 r b cands org fl,
+    namespace_transform "prod" m0 = Ok m1 /\ nth_error m1 1 = Some r /\
+    org_id pipe_cs r = Ok org /\ filters_for pipe_rule_list org = fl /\
+    cands_at pipe_cs m1 1 = Ok cands /\
+    match fl with
+    | (_, tg0) :: _ =>
+        let x := make_ctx pipe_cs r "subjects" tg0 in
+        filter (name_kind_match x "sa1")
+               (mapping_cands [("kind", sj_sc "ServiceAccount"); ("name", sj_sc "sa1"); ("namespace", sj_sc "")] cands) = [b]
+    | [] => False
+    end /\ c_name b = "sa1" /\ c_ns b = "prod".
+Proof.
+  cbv zeta. do 6 eexists. split; [vm_compute; reflexivity|]. split; [reflexivity|].
+  split; [vm_compute; reflexivity|]. split; [vm_compute; reflexivity|]. split; [vm_compute; reflexivity|].
+  split; [vm_compute; reflexivity|]. split; reflexivity.
+Qed.
